@@ -67,6 +67,7 @@ type RunParams struct {
 	Alt        bool   `json:"alt"`
 	Hold       bool   `json:"hold"`
 	FailOpen   bool   `json:"failopen"`
+	WalStates  bool   `json:"walstates"`
 }
 
 // RegressItem is a program plus runner settings.
